@@ -75,7 +75,9 @@ let handle toks =
        | "inv", Some s -> out (planar_inv o s w u0 b x) None
        | "invld", Some s -> out (planar_inv o s w u0 b x) (Some (planar_ld_inv o s w u0 b x))
        | _ -> "ERR notimplemented")
-  | ["planaru"; w; u0] -> out (planar_u o (floats_of w) (floats_of u0)) None
+  | ["planaru"; ns; w; u0] ->
+      let ns = if ns = "none" then None else Some (fl ns) in
+      out (planar_u o ns (floats_of w) (floats_of u0)) None
   | _ -> "ERR unknown-request"
 let () =
   try
